@@ -153,6 +153,17 @@ static void run_op(World& w, const std::string& op) {
   size_t p = 1;
   Error err = Error::kOk;
   switch (op[0]) {
+    case 'L': {   // many labels at once: makes the holder arena outgrow a small (static) first block
+                unsigned n = num(op, p);
+                for (unsigned i = 0; i < n; i++) { Label l = e->new_label(); if (!l.is_valid()) err = Error::kInvalidLabel; }
+                break; }
+    case 'f': {   // the usual multi-section tooling on the holder: flatten, resolve cross-section fixups, relocate
+                err = w.code->flatten();
+                w.errs.push_back(int(err));
+                err = w.code->resolve_cross_section_fixups();
+                w.errs.push_back(int(err));
+                err = w.code->relocate_to_base(0x100000000ull);
+                break; }
     case 'l': { Label l = e->new_label(); w.labels.push_back(l); err = l.is_valid() ? Error::kOk : Error::kInvalidLabel; break; }
     case 'n': { std::string nm = op.substr(1); Label l = e->new_named_label(nm.c_str()); w.labels.push_back(l); err = l.is_valid() ? Error::kOk : Error::kInvalidLabel; break; }
     case 'b': { err = e->bind(label_of(w, num(op, p))); break; }
@@ -176,7 +187,7 @@ static void run_op(World& w, const std::string& op) {
     case 'q': { err = e->embed_label(label_of(w, num(op, p)), 8); break; }
     case 'd': { unsigned a = num(op, p), b = num(op, p); err = e->embed_label_delta(label_of(w, a), label_of(w, b), 4); break; }
     case 's': { std::string nm = op.substr(1); Section* sec = nullptr;
-                err = w.code->new_section(Out<Section*>(sec), nm.c_str(), SIZE_MAX, SectionFlags::kNone, 8);
+                err = w.code->new_section(Out<Section*>(sec), nm.c_str(), SIZE_MAX, SectionFlags::kNone, nm == ".data" ? 64 : 8);
                 if (err == Error::kOk) { w.requested_section_names.push_back(nm); err = e->section(sec); }
                 break; }
     case 't': { unsigned i = num(op, p); size_t n = w.code->section_count(); err = n ? e->section(w.code->section_by_id(uint32_t(i % n))) : Error::kInvalidSection; break; }
@@ -207,6 +218,7 @@ static void run_op(World& w, const std::string& op) {
                 FuncNode* f = w.is_x86 ? static_cast<x86::Compiler*>(e)->add_func(sig) : static_cast<a64::Compiler*>(e)->add_func(sig);
                 (void)cc;
                 w.func = f;
+                w.vregs.clear();        // virtual registers are function-local: a function never names those of an earlier one
                 if (!f) { err = Error::kOutOfMemory; break; }
                 for (unsigned i = 0; i < n; i++) {
                   Reg r = w.is_x86 ? Reg(static_cast<x86::Compiler*>(e)->new_gp64("arg%u", i)) : Reg(static_cast<a64::Compiler*>(e)->new_gp64("arg%u", i));
@@ -224,6 +236,19 @@ static void run_op(World& w, const std::string& op) {
                 Reg r = w.is_x86 ? Reg(static_cast<x86::Compiler*>(e)->new_gp64("v%u", v)) : Reg(static_cast<a64::Compiler*>(e)->new_gp64("v%u", v));
                 w.vregs.push_back(r);
                 err = w.is_x86 ? e->emit(x86::Inst::kIdMov, r, imm(v)) : e->emit(a64::Inst::kIdMov, r, imm(v & 0xFFF));
+                break; }
+    case 'h': { if (w.kind != 'c') break;      // register pressure: n values alive at once (callee-saved registers get used)
+                unsigned n = num(op, p);
+                size_t first = w.vregs.size();
+                for (unsigned i = 0; i < n && err == Error::kOk; i++) {
+                  Reg r = w.is_x86 ? Reg(static_cast<x86::Compiler*>(e)->new_gp64("h%u", i)) : Reg(static_cast<a64::Compiler*>(e)->new_gp64("h%u", i));
+                  w.vregs.push_back(r);
+                  err = w.is_x86 ? e->emit(x86::Inst::kIdMov, r, imm(i + 1)) : e->emit(a64::Inst::kIdMov, r, imm(i + 1));
+                }
+                for (unsigned i = 1; i < n && err == Error::kOk; i++) {
+                  Reg a = w.vregs[first], b = w.vregs[first + i];
+                  err = w.is_x86 ? e->emit(x86::Inst::kIdAdd, a, b) : e->emit(a64::Inst::kIdAdd, a, a, b);
+                }
                 break; }
     case 'y': { if (w.kind != 'c') break;
                 BaseCompiler* cc = static_cast<BaseCompiler*>(e);
@@ -297,7 +322,9 @@ static std::string dump(World& w) {
     if (strnlen(s->name(), sizeof(s->_name.str)) != want.size() || memcmp(s->name(), want.data(), want.size()) != 0) names_ok = 0;
     for (size_t i = want.size(); i < sizeof(s->_name.str); i++) if (s->_name.str[i] != 0) names_ok = 0;   // zero padded: section_by_name compares the whole field
     o << " sec[" << s->section_id() << " " << shown << " f" << uint32_t(s->flags()) << " a" << s->alignment() << " o" << s->order()
-      << " v" << s->virtual_size() << " n" << s->buffer_size() << " " << bytes << "]";
+      << " v" << s->virtual_size() << " @";
+    if (s->has_offset()) o << s->offset(); else o << "-";
+    o << " n" << s->buffer_size() << " " << bytes << "]";
   }
   o << " order=";
   for (Section* s : c.sections_by_order()) o << s->section_id() << ".";
@@ -354,8 +381,9 @@ static std::string state_line(World& w) {
 // ---- representation probe: after the final reset-like step the recycled holder and emitter are compared, data member by data
 // member (table generated from the clang AST member lists, the same ones the Coq coverage obligation is proved over), with a
 // fresh holder + emitter brought into the same configuration. K_BYTES: same bytes; K_PTR / K_PTRS: same null-ness;
-// K_VEC / K_HASH: same element count; K_SKIP: retained resources (arenas, pools, the embedded .text section) and one cache flag.
-enum ProbeKind { K_BYTES, K_PTR, K_PTRS, K_VEC, K_HASH, K_SKIP };
+// K_VEC / K_HASH / K_ARENA / K_SECTION: layout-aware comparison of the container's own members (data pointers by null-ness, sizes,
+// capacities, bucket parameters, reusable slots, section header); K_SKIP: the Assembler's buffer cursors and one cache flag.
+enum ProbeKind { K_BYTES, K_PTR, K_PTRS, K_VEC, K_HASH, K_ARENA, K_SECTION, K_SKIP };
 struct ProbeMember { const char* cls; const char* name; size_t offset; size_t size; ProbeKind kind; };
 #ifdef C16_HAVE_MEMBERS
 #define C16_MEMBER(cls, mem, kind) { #cls, #mem, offsetof(cls, mem), sizeof(((cls*)nullptr)->mem), kind },
@@ -411,8 +439,36 @@ static std::string probe(World& w) {
           if ((pa == nullptr) != (pb == nullptr)) same = false;
         }
         break;
-      case K_HASH: same = reinterpret_cast<const ArenaHashBase*>(a)->_size == reinterpret_cast<const ArenaHashBase*>(b)->_size; break;
-      case K_VEC: same = reinterpret_cast<const ArenaVectorBase*>(a)->_size == reinterpret_cast<const ArenaVectorBase*>(b)->_size; break;
+      case K_HASH: {   // layout-aware: every member of ArenaHashBase (bucket array by null-ness / embedded-ness)
+        const ArenaHashBase* ha = reinterpret_cast<const ArenaHashBase*>(a);
+        const ArenaHashBase* hb = reinterpret_cast<const ArenaHashBase*>(b);
+        same = ha->_size == hb->_size && ha->_buckets_count == hb->_buckets_count && ha->_buckets_grow == hb->_buckets_grow &&
+               ha->_rcp_value == hb->_rcp_value && ha->_rcp_shift == hb->_rcp_shift && ha->_prime_index == hb->_prime_index &&
+               ((ha->_data == ha->_embedded) == (hb->_data == hb->_embedded)) && ((ha->_embedded[0] == nullptr) == (hb->_embedded[0] == nullptr));
+        break; }
+      case K_VEC: {    // layout-aware: data (null-ness), size, capacity
+        const ArenaVectorBase* va = reinterpret_cast<const ArenaVectorBase*>(a);
+        const ArenaVectorBase* vb = reinterpret_cast<const ArenaVectorBase*>(b);
+        same = va->_size == vb->_size && va->_capacity == vb->_capacity && ((va->_data == nullptr) == (vb->_data == nullptr));
+        break; }
+      case K_ARENA: {  // reset part of an Arena: dynamic blocks, reusable slots, configuration; block chain and cursors are retained resources
+        const Arena* aa = reinterpret_cast<const Arena*>(a);
+        const Arena* ab = reinterpret_cast<const Arena*>(b);
+        same = ((aa->_dynamic_blocks == nullptr) == (ab->_dynamic_blocks == nullptr)) &&
+               aa->_min_block_size_shift == ab->_min_block_size_shift && aa->_max_block_size_shift == ab->_max_block_size_shift;
+        for (size_t i = 0; i < sizeof(aa->_reusable_slots) / sizeof(aa->_reusable_slots[0]); i++)
+          if ((aa->_reusable_slots[i] == nullptr) != (ab->_reusable_slots[i] == nullptr)) same = false;
+        if (!aa->_has_static_block && !ab->_has_static_block && aa->_unused_byte_count != ab->_unused_byte_count) same = false;
+        break; }
+      case K_SECTION: {  // the embedded .text section: everything but the retained buffer memory
+        const Section* sa = reinterpret_cast<const Section*>(a);
+        const Section* sb = reinterpret_cast<const Section*>(b);
+        same = sa->_section_id == sb->_section_id && sa->_internal_label_type == sb->_internal_label_type &&
+               sa->_internal_label_flags == sb->_internal_label_flags && sa->_internal_uint16_data == sb->_internal_uint16_data &&
+               sa->_alignment == sb->_alignment && sa->_order == sb->_order && sa->_offset == sb->_offset &&
+               sa->_virtual_size == sb->_virtual_size && memcmp(&sa->_name, &sb->_name, sizeof(sa->_name)) == 0 &&
+               sa->_buffer._size == sb->_buffer._size && sa->_buffer._flags == sb->_buffer._flags;
+        break; }
       default: break;
     }
     compared++;
@@ -465,6 +521,9 @@ static void run_case(const std::vector<std::string>& tok) {
 
   std::string trace;
   std::string final_prog;
+  std::string alone_prog;
+  bool p_is32 = false;                       // configuration of the holder at the moment the final program starts
+  uint64_t p_base = Globals::kNoBaseAddress; // (relocate_to_base inside the program changes the base address afterwards)
   for (size_t i = 5; i < tok.size(); i++) {
     const std::string& st = tok[i];
     if (st.compare(0, 2, "G:") == 0) run_prog(w, st.substr(2));
@@ -499,8 +558,11 @@ static void run_case(const std::vector<std::string>& tok) {
     else if (st == "V1") w.em->add_diagnostic_options(DiagnosticOptions::kValidateAssembler | DiagnosticOptions::kValidateIntermediate);
     else if (st == "V0") w.em->clear_diagnostic_options(DiagnosticOptions::kValidateAssembler | DiagnosticOptions::kValidateIntermediate);
     else if (st[0] == 'H') perturb_heap(w, unsigned(atol(st.c_str() + 1)));
+    else if (st.compare(0, 2, "Q:") == 0) { alone_prog = st.substr(2); continue; }
     else if (st.compare(0, 2, "P:") == 0) {
       printf("M %s %s\n", id.c_str(), probe(w).c_str());
+      p_is32 = w.code->arch() == Arch::kX86;
+      p_base = w.code->base_address();
       final_prog = st.substr(2); run_prog(w, final_prog);
     }
     else { printf("X %s bad-step:%s\n", id.c_str(), st.c_str()); return; }
@@ -516,8 +578,8 @@ static void run_case(const std::vector<std::string>& tok) {
   {
     World f;
     f.is_x86 = w.is_x86; f.kind = w.kind;
-    f.is_32 = w.code->arch() == Arch::kX86;      // the mode the recycled holder was (re)initialised with
-    f.base = w.code->base_address();
+    f.is_32 = p_is32;      // the mode / base address the recycled holder was (re)initialised with
+    f.base = p_base;
     f.code = new CodeHolder();
     init_holder(f);
     f.em = make_emitter(f);
@@ -525,6 +587,24 @@ static void run_case(const std::vector<std::string>& tok) {
     run_prog(f, final_prog);
     std::string fr = dump(f);
     printf("F %s %s\n", id.c_str(), fr.c_str());
+    if (!alone_prog.empty()) {
+      // the last function of the final program compiled alone on fresh objects (function independence)
+      World a;
+      a.is_x86 = w.is_x86; a.kind = w.kind; a.is_32 = f.is_32; a.base = f.base;
+      a.code = new CodeHolder();
+      init_holder(a);
+      a.em = make_emitter(a);
+      a.code->attach(a.em);
+      run_prog(a, alone_prog);
+      std::string hex;
+      Section* ts = a.code->text_section();
+      hex_bytes(hex, ts->data(), ts->buffer_size());
+      std::string errs;
+      for (size_t i = 0; i < a.errs.size(); i++) { errs += (i ? "," : ""); errs += std::to_string(a.errs[i]); }
+      printf("T %s errs=%s text=%s\n", id.c_str(), errs.c_str(), hex.c_str());
+      delete a.em;
+      delete a.code;
+    }
     fflush(stdout);        // the destructors below may still trip a sanitizer: keep the lines whole
     delete f.em;
     delete f.code;
